@@ -284,7 +284,7 @@ def view_item(view, item, idx):
 
 def container_table(cases, tier, rng, stats):
     """Every published behaviour on every loop variant it applies to (behaviours with 3 acting
-    iterations -- thorough tier only -- on 3 of them, chosen by the seeded rng)."""
+    iterations -- thorough tier only -- on 2 of them, chosen by the seeded rng)."""
     tab = Table("c14cont")
     by_kind = collections.defaultdict(list)
     for name, v in L.CONT_VARIANTS.items():
@@ -306,8 +306,8 @@ def container_table(cases, tier, rng, stats):
             if cls in ("str", "bytes") and n > 5:
                 continue
             applicable.append(v)
-        if sum(1 for act in script if act) >= 3 and len(applicable) > 3:
-            applicable = rng.sample(applicable, 3)
+        if sum(1 for act in script if act) >= 3 and len(applicable) > 2:
+            applicable = rng.sample(applicable, 2)
         for name, cls, ctype, it, target, log, cdecl, pdecl, view, path in applicable:
             two = view in ("kv", "ek", "ei", "ech")
             sent = "c" if "'c'" in pdecl else L.SENT      # value of the loop variable(s) before the loop
@@ -372,7 +372,7 @@ def run(tier, seed):
     thorough = tier == "thorough"
 
     # ---- model checking and builds run side by side
-    range_cfgs = ["RangeLoop_s6", "RangeLoop_g8", "RangeLoop_e8"] if thorough else ["RangeLoop_s5", "RangeLoop_c8"]
+    range_cfgs = ["RangeLoop_s6", "RangeLoop_c8", "RangeLoop_e8"] if thorough else ["RangeLoop_s5", "RangeLoop_c8"]
     iter_cfg = "IterMutation_t" if thorough else "IterMutation_q"
     nw = max(2, core.NCPU // 4)
     ex = concurrent.futures.ThreadPoolExecutor(max_workers=8)
